@@ -554,6 +554,28 @@ func c04Decoders(r *mon.R, lite bool) {
 					}
 				}
 			}
+			// ---- the same bytes into a receiver that already holds a finite value: same verdict, Equal value, usable
+			r.Guard("C04/"+g.Name+"/point/UnmarshalBinary(used-receiver)", det, func() {
+				q := g.Point().Add(g.Point().Mul(two, B), B)
+				e2 := q.UnmarshalBinary(append([]byte(nil), in.b...))
+				r.Eval("point-used-receiver/"+in.class, desc, true)
+				if okDec && (e2 == nil) != (err == nil) {
+					r.Violation("C04/"+g.Name+"/point/used-receiver-verdict-differs", "decoding the same bytes into a receiver that already held a value gives a different accept/reject verdict than a fresh receiver",
+						map[string]any{"group": g.Name, "class": in.class, "input": hx, "fresh_err": fmt.Sprint(err), "used_err": fmt.Sprint(e2)})
+				}
+				if e2 == nil {
+					enc2 := groups.Enc(q)
+					q2 := g.Point()
+					if e3 := q2.UnmarshalBinary(enc2); e3 != nil {
+						r.Violation("C04/"+g.Name+"/point/used-receiver-re-encoding-rejected", "value decoded into a used receiver re-encodes to bytes the decoder rejects", map[string]any{"group": g.Name, "class": in.class, "input": hx, "reencoded": mon.Hex(enc2), "err": e3.Error()})
+					}
+					if okDec && err == nil && (!q.Equal(p) || !p.Equal(q)) {
+						r.Violation("C04/"+g.Name+"/point/used-receiver-value-differs", "decoding the same bytes into a used receiver yields a different point than into a fresh receiver", map[string]any{"group": g.Name, "class": in.class, "input": hx})
+					}
+					_ = g.Point().Add(q, B)
+					_ = g.Point().Mul(two, q)
+				}
+			})
 			// ---- UnmarshalFrom on the same bytes (stream form)
 			r.Guard("C04/"+g.Name+"/point/UnmarshalFrom", det, func() {
 				q := g.Point()
